@@ -368,27 +368,31 @@ def evaluate(ctx, group, items, shard):
     res = ctx.coq_cases(group, REQ, FN, [it[3] for it in items], 2, shard=shard, case_ty=CASE_TY,
                         preamble=PREAMBLE, timeout=1500)
     bad = [it for it, (ag, ho) in zip(items, res) if not (ag and ho)]
-    for par, gid, params, _ in bad[:40]:
-        # regenerate the runs of this graph (deterministic) and evaluate them one by one
+    # regenerate the runs of the flagged graphs (deterministic) and evaluate them one by one
+    singles, owners = [], []
+    for par, gid, params, _ in bad[:25]:
         text, runs = do_graph(ctx.seed, par, gid, *params)
-        singles = [c_case(par, [c_run(r['adapter'], r['raise'], r['rules'], r['observed'])]) for r in runs]
-        rr = ctx.coq_cases(group + '-pinpoint', REQ, FN, singles, 2, case_ty=CASE_TY, preamble=PREAMBLE)
-        hit = False
-        for r, (ag, ho) in zip(runs, rr):
-            case = {'graph': par, 'adapter': r['adapter'], 'raise_on_failure': r['raise'], 'rules': r['rules'],
-                    'observed': r['observed']}
-            if not ho:
-                hit = True
-                ctx.violate(group, case, 'verdict / rule argument contradicts the structural conditions of the '
-                                         'configured rules (independent oracle)')
-            if not ag:
-                hit = True
-                ctx.disagree(group, case, 'model and implementation differ')
-        if not hit:
+        for r in runs:
+            singles.append(c_case(par, [c_run(r['adapter'], r['raise'], r['rules'], r['observed'])]))
+            owners.append((par, r))
+    rr = ctx.coq_cases(group + '-pinpoint', REQ, FN, singles, 2, case_ty=CASE_TY, preamble=PREAMBLE) if singles else []
+    hit = set()
+    for (par, r), (ag, ho) in zip(owners, rr):
+        case = {'graph': par, 'adapter': r['adapter'], 'raise_on_failure': r['raise'], 'rules': r['rules'],
+                'observed': r['observed']}
+        if not ho:
+            hit.add(repr(par))
+            ctx.violate(group, case, 'verdict / rule argument contradicts the structural conditions of the '
+                                     'configured rules (independent oracle)')
+        if not ag:
+            hit.add(repr(par))
+            ctx.disagree(group, case, 'model and implementation differ')
+    for par, gid, params, _ in bad[:25]:
+        if repr(par) not in hit:
             ctx.disagree(group, {'graph': par}, 'batch evaluation flagged this graph but no single run reproduces it '
                                                 '(implementation not deterministic?)')
-    if len(bad) > 40:
-        ctx.disagree(group, None, '%d further graphs flagged' % (len(bad) - 40))
+    if len(bad) > 25:
+        ctx.disagree(group, None, '%d further graphs flagged' % (len(bad) - 25))
     return res
 
 
